@@ -227,6 +227,37 @@ def DSt.dump (s : DSt) (l : Nat) : String :=
 def DSt.dumpAll (s : DSt) : String :=
   " | ".intercalate ((List.range s.nl).map fun l => s.dump l)
 
+/-- Tail-recursive traversal folding `f` over the visited nodes (same cut-off as `walk`;
+`Proof/C13DWalk.walkFold_eq`: it is `foldl f` over the list `walk` returns). -/
+def walkFold {α : Type} (step : Nat → Ptr) (f : α → Nat → α) : Nat → Ptr → α → α × Bool
+  | _, none, a => (a, true)
+  | 0, some _, a => (a, false)
+  | n + 1, some e, a => walkFold step f n (step e) (f a e)
+
+/-- Cut-off of the traversals of the `big` dumps. -/
+def bigCap : Nat := 200000
+
+def digestMod : Nat := 2147483647
+
+/-- Digest of a traversal: number of nodes visited and a polynomial hash of `g` of the nodes. -/
+def digestStep (g : Nat → Int) (a : Nat × Nat) (e : Nat) : Nat × Nat :=
+  (a.1 + 1, ((a.2 * 1000003 + ((g e + 11) % (digestMod : Int)).toNat) % digestMod))
+
+def showDigest (w : (Nat × Nat) × Bool) : String :=
+  s!"{w.1.1}:{w.1.2}" ++ (if w.2 then "" else "!")
+
+/-- Dump of a long list: `<len> f~<n>:<hash of ids front to back> b~<n>:<hash back to front>
+v~<n>:<hash of values>`. -/
+def DSt.dumpBig (s : DSt) (l : Nat) : String :=
+  let ids := fun (e : Nat) => (e : Int)
+  let f := walkFold s.nodeNext (digestStep ids) bigCap (s.front l) (0, 0)
+  let b := walkFold s.nodePrev (digestStep ids) bigCap (s.back l) (0, 0)
+  let v := walkFold s.nodeNext (digestStep fun e => s.val.get e) bigCap (s.front l) (0, 0)
+  s!"{s.lenOf l} f~{showDigest f} b~{showDigest b} v~{showDigest v}"
+
+def DSt.dumpAllBig (s : DSt) : String :=
+  " | ".intercalate ((List.range s.nl).map fun l => s.dumpBig l)
+
 def parseList (s : DSt) (t : String) : Option Nat :=
   if t = "A" then (if 0 < s.nl then some 0 else none)
   else if t = "B" then (if 1 < s.nl then some 1 else none)
@@ -342,25 +373,60 @@ def DSt.step (s : DSt) (ts : List String) : Option (Option (DSt × String)) := d
   let op ← parseDOp s ts
   pure ((s.apply op).map fun (s1, r) => (s1, showRes r))
 
-def runDOps : Option DSt → List String → List String
-  | _, [] => []
-  | none, _ :: ls => "dead" :: runDOps none ls
-  | some s, l :: ls =>
-    match s.step (toks l) with
-    | none => "bad-op" :: runDOps (some s) ls
-    | some none => "panic" :: runDOps none ls
-    | some (some (s1, out)) => (out ++ " | " ++ s1.dumpAll) :: runDOps (some s1) ls
+/-- Bulk line `pushn L k`: `k` times `PushBack(i % 10)`, i.e. `k` applications of `DSt.apply`. -/
+def DSt.pushN (l : Nat) : Nat → Nat → DSt → Option DSt
+  | 0, _, s => some s
+  | k + 1, i, s => do
+    let (s1, _) ← s.apply (.pushBack l ((i % 10 : Nat) : Int))
+    DSt.pushN l k (i + 1) s1
 
-/-- Header `@ C13 dlist <kA> <kB>`: each list starts as the zero value (`z`) or from
-`NewDoubly()` (`n`). -/
+/-- Bulk lines `removen L k` / `removebn L k`: `k` times `l.Remove(l.Front())` (`l.Back()`),
+stopping when the list is empty; again only applications of `DSt.apply`. -/
+def DSt.removeN (l : Nat) (back : Bool) : Nat → DSt → Option DSt
+  | 0, s => some s
+  | k + 1, s =>
+    match (if back then s.back l else s.front l) with
+    | none => some s
+    | some e => do
+      let (s1, _) ← s.apply (.remove l e)
+      DSt.removeN l back k s1
+
+/-- Bulk lines (expanded into calls of `DSt.apply`). -/
+def DSt.stepBulk (s : DSt) (ts : List String) : Option (Option (DSt × String)) :=
+  match ts with
+  | ["pushn", l, k] => do
+    let l ← parseList s l; let k ← k.toNat?
+    pure ((DSt.pushN l k 0 s).map fun s1 => (s1, "ok"))
+  | ["removen", l, k] => do
+    let l ← parseList s l; let k ← k.toNat?
+    pure ((DSt.removeN l false k s).map fun s1 => (s1, "ok"))
+  | ["removebn", l, k] => do
+    let l ← parseList s l; let k ← k.toNat?
+    pure ((DSt.removeN l true k s).map fun s1 => (s1, "ok"))
+  | _ => s.step ts
+
+def runDOps (big : Bool) : Option DSt → List String → List String
+  | _, [] => []
+  | none, _ :: ls => "dead" :: runDOps big none ls
+  | some s, l :: ls =>
+    match s.stepBulk (toks l) with
+    | none => "bad-op" :: runDOps big (some s) ls
+    | some none => "panic" :: runDOps big none ls
+    | some (some (s1, out)) =>
+      (out ++ " | " ++ (if big then s1.dumpAllBig else s1.dumpAll)) :: runDOps big (some s1) ls
+
+/-- Header `@ C13 dlist <kA> <kB> [big]`: each list starts as the zero value (`z`) or from
+`NewDoubly()` (`n`); `big` = long lists, dumps are digests of the full traversals. -/
 def runDListCase (hdr : List String) (ops : List String) : List String :=
   let mk (k : String) (l : Nat) (s : DSt) : Option DSt :=
     if k = "z" then some s else if k = "n" then some (s.init l) else none
-  match hdr with
-  | [ka, kb] =>
+  let go (ka kb : String) (big : Bool) : List String :=
     match (mk ka 0 (DSt.zero 2)).bind (mk kb 1) with
     | none => "bad-op" :: ops.map fun _ => "bad-op"
-    | some s => ("ok | " ++ s.dumpAll) :: runDOps (some s) ops
+    | some s => ("ok | " ++ (if big then s.dumpAllBig else s.dumpAll)) :: runDOps big (some s) ops
+  match hdr with
+  | [ka, kb] => go ka kb false
+  | [ka, kb, "big"] => go ka kb true
   | _ => "bad-op" :: ops.map fun _ => "bad-op"
 
 end Golib.C13
